@@ -162,6 +162,9 @@ impl Default for JoinGraph {
     }
 }
 
+/// Largest number of relations the exhaustive join-order search is run on.
+const MAX_REORDERED_RELATIONS: usize = 16;
+
 /// A bitset for efficient subset representation.
 #[derive(Debug, Clone, Copy, PartialEq, Eq, Hash)]
 pub struct BitSet(u64);
@@ -321,9 +324,11 @@ impl<'a> DPccp<'a> {
         if n == 0 {
             return None;
         }
-        // Subsets of relations are u64 bit sets: beyond 63 relations the shifts overflow.
-        // No reordering then; the caller keeps the join order as written.
-        if n > 63 {
+        // The search visits subsets of the relations: its cost grows as 2^n (thirty
+        // cross-joined patterns took most of a minute to plan, forty did not finish), and
+        // the u64 bit sets overflow beyond 63 relations. Past this size there is no
+        // reordering; the caller keeps the join order as written.
+        if n > MAX_REORDERED_RELATIONS {
             return None;
         }
         if n == 1 {
